@@ -1574,3 +1574,78 @@ class Settle:
     def clean_except(self, keep) -> bool:
         ctx = self.ctx
         return not [f for f in ctx.findings[self.snap[0]:] if not keep(f.func)] and not [u for u in ctx.undecided[self.snap[1]:] if not keep(u.site)]
+
+
+def foreign_formulation(ctx, s):
+    """Why a summary is written in a formulation the spelling-based rules cannot read (None = it is not): it carries state through a
+    loop that was not resolved, calls an in-package helper / a method of an object built in place / an entry of a table that the engine
+    did not open.  A rule that finds a deviation in such a function does not know whether it is one."""
+    from sa.sym import PINNED
+    new_helpers = sorted({q for q in getattr(s, "inlined", ()) if ":" in q and q.split(":")[1].split(".")[0] not in {n.split(".")[0] for n in PINNED.get(q.split(":")[0], ())}
+                          and q.split(":")[0] != s.module.name})
+    if len(new_helpers) >= 4:
+        return f"{len(new_helpers)} helpers of another module that the reference tree does not have ({', '.join(h.split(':')[1] for h in new_helpers[:3])}, ...): a generic engine spliced in"
+    for e in s.events:
+        for t in (e.term, e.live):
+            for x in walk(t):
+                if x[0] in ("loopout", "phi") and len(x) == 3:
+                    return f"state carried through a loop (`{x[1]}`)"
+                if x[0] == "ext" and len(x) == 2 and x[1] in ("itertools.starmap", "functools.reduce", "itertools.chain.from_iterable", "itertools.accumulate",
+                                                               "itertools.groupby", "itertools.tee", "itertools.zip_longest"):
+                    return f"a functional pipeline (`{x[1]}`)"
+                if x[0] == "call" and isinstance(x[1], tuple):
+                    f = x[1]
+                    if f[0] == "global" and f[2] == "func" and ":" in f[1]:
+                        mn, fn = f[1].split(":")
+                        if fn.split(".")[0] not in {n.split(".")[0] for n in PINNED.get(mn, ())} and mn in ctx.index.modules:
+                            return f"a helper the engine did not open (`{fn}`)"
+                    if f[0] == "attr" and f[1][0] == "call" and isinstance(f[1][1], tuple) and f[1][1][0] == "global" and f[1][1][2] == "class" \
+                            and str(f[1][1][1]).startswith("soundevent"):
+                        return f"a method of an object built in place (`{f[1][1][1].split(':')[-1]}.{f[2]}`)"
+                    if f[0] == "sub" and f[1][0] == "global" and f[1][2] == "assign":
+                        return f"an entry of the table `{f[1][1].split(':')[-1]}`"
+    return None
+
+
+def soften_foreign(ctx, settle, rule_prefixes):
+    """The reports made since `settle` (a Settle snapshot) by the named rules, about functions whose summary is in a foreign formulation
+    (or about tables of a module whose functions are), become UNDECIDED: the rule matched the reference's formulation and did not find it."""
+    new = ctx.findings[settle.snap[0]:]
+    keep, turned = [], []
+    for f in new:
+        if not any(f.rule.split("/")[-1].startswith(p) or f.rule.startswith(p) for p in rule_prefixes):
+            keep.append(f)
+            continue
+        reason = None
+        mod = next((m for m in ctx.index.modules.values() if m.relpath == f.file), None)
+        if mod is not None:
+            cands = []
+            try:
+                cands.append(ctx.summ.of_func(mod.name, f.func))
+            except Exception:  # noqa: BLE001
+                pass
+            # ... and the other functions of its module (a finding about an entry point or a table is about the helpers it is built from)
+            for d, defs in mod.defs.items():
+                if any(isinstance(x, ast.FunctionDef) for x in defs):
+                    try:
+                        cands.append(ctx.summ.of_func(mod.name, d))
+                    except Exception:  # noqa: BLE001
+                        pass
+            for s_ in cands:
+                reason = foreign_formulation(ctx, s_)
+                if reason:
+                    break
+        if reason:
+            turned.append((f, reason))
+        else:
+            keep.append(f)
+    if not turned:
+        return
+    ctx.findings[settle.snap[0]:] = keep
+    gone = {(f.rule, f.func) for f, _ in turned}
+    for k in list(ctx.instances):
+        n0 = settle.snap[2].get(k, 0)
+        ctx.instances[k][n0:] = [i for i in ctx.instances[k][n0:] if not (i.get("verdict") == "VIOLATION" and any(k == r_ and fn_ in i.get("site", "") for r_, fn_ in gone))]
+    for f, reason in turned:
+        ctx.undec(f.rule[len(ctx._prefix):] if ctx._prefix and f.rule.startswith(ctx._prefix) else f.rule, f"{f.file}:{f.line} {f.func}",
+                  f"the rule did not find the reference's formulation ({f.construct[:50]}), and {f.func} is written with {reason}: not decided")
